@@ -2,6 +2,9 @@ import Model.C19
 import Proofs.C19
 import Proofs.C19.Extra
 import Proofs.C19.Sort
+import Proofs.C19.Multi
+import Proofs.C19.Multi2
+import Proofs.C19.Cap
 /-!
 # C19 — property theorems (statements only; proofs live in `Proofs/C19.lean`, `Proofs/C19/*.lean`)
 
@@ -35,9 +38,8 @@ example : addVersion 1 [50, 64, 97] = [49, 64, 50, 64, 97] ∧ addVersion 12 [97
 
 /-- Clients whose stacks differ in one version layer above a shared lower part (whatever private
 layers they put on top) never name the same backend entry: no key of one client aliases any key of
-the other, so neither can read, overwrite or delete what the other stored. (A run-level theorem for
-two interleaved clients is not proved; their interleavings are covered by the correspondence check
-and the judge, one map-with-expiry per client.) -/
+the other, so neither can read, overwrite or delete what the other stored. (The run-level theorem
+for two interleaved clients is `two_clients_isolated` below.) -/
 theorem split_clients_disjoint_backend_keys (up up' low : List Layer) (a b : Nat) (hab : a ≠ b) (k k' : Key) :
     phys (up ++ .ver a :: low) k ≠ phys (up' ++ .ver b :: low) k' :=
   PfC19.phys_split_disjoint up up' low a b hab k k'
@@ -237,6 +239,165 @@ theorem store_is_readable (cd : Codec) (hcd : ∀ b, cd.dec (cd.enc b) = some b)
     (be : Backend) (k : Key) (v : Bytes) (ttl : Int) (hs : List (List Key)) (httl : 0 < ttl) :
     (getL cd wall (setL cd wall ls be k v ttl).1 (setL cd wall ls be k v ttl).2 [k] hs).2.1 = [(k, v)] :=
   PfC19.read_your_write cd hcd wall ls be k v ttl hs httl
+
+/-! ### ANY stack: any number and any order of in-memory, versioned and compression layers
+
+No `oneLru` hypothesis: induction over the layer list with an invariant on every copy in every layer
+(`PfC19.MInv`). With several in-memory layers each may take a copy from the one below while that
+still serves it, so the retentions add up: `slack ls` = sum of the non-negative parts of the default
+retentions of all in-memory layers of the stack (for one layer: `max defaultTTL 0`, the bound of
+`no_read_after_hard_deadline`). -/
+
+/-- Any stack, any run, both clocks free: a read returns only requested keys, each with the value
+most recently stored under it and not deleted since, byte for byte. -/
+theorem read_is_last_stored_any_stack (cd : Codec) (hcd : ∀ b, cd.dec (cd.enc b) = some b) (ls : List Layer)
+    (h2 : emptyLrus ls) (v0 w0 : Int) (ops : List (Op × List (List Key)))
+    (hok : ∀ o ∈ ops, OpOk o.1) (keys : List Key) (hs : List (List Key)) :
+    ∀ kv ∈ (final cd ls v0 w0 ops).1.read cd keys hs,
+      kv.1 ∈ keys ∧ ∃ dV dW fl, (final cd ls v0 w0 ops).2.spec.get kv.1 = .present kv.2 dV dW fl :=
+  PfC19.mrun_read cd hcd ls h2 v0 w0 ops hok keys hs
+
+/-- Any stack: a deleted (or never stored) key is not returned, whichever layers held copies. -/
+theorem no_read_after_delete_any_stack (cd : Codec) (hcd : ∀ b, cd.dec (cd.enc b) = some b) (ls : List Layer)
+    (h2 : emptyLrus ls) (v0 w0 : Int) (ops : List (Op × List (List Key)))
+    (hok : ∀ o ∈ ops, OpOk o.1) (keys : List Key) (hs : List (List Key)) (k : Key)
+    (hd : (final cd ls v0 w0 ops).2.spec.get k = .deleted ∨ (final cd ls v0 w0 ops).2.spec.get k = .never) :
+    ∀ kv ∈ (final cd ls v0 w0 ops).1.read cd keys hs, kv.1 ≠ k := by
+  intro kv hkv he
+  obtain ⟨_, dV, dW, fl, hg⟩ := PfC19.mrun_read cd hcd ls h2 v0 w0 ops hok keys hs kv hkv
+  rw [he] at hg
+  rcases hd with hd | hd <;> rw [hd] at hg <;> simp at hg
+
+/-- Any stack, one clock: nothing is returned `slack ls` or more after the TTL of its last store ran
+out, however many in-memory layers copied it from each other. -/
+theorem no_read_after_hard_deadline_any_stack (cd : Codec) (hcd : ∀ b, cd.dec (cd.enc b) = some b) (ls : List Layer)
+    (h2 : emptyLrus ls) (v0 w0 : Int) (ops : List (Op × List (List Key)))
+    (hok : ∀ o ∈ ops, OpOk o.1) (hc : ∀ o ∈ ops, Coupled o.1) (keys : List Key) (hs : List (List Key)) :
+    ∀ kv ∈ (final cd ls v0 w0 ops).1.read cd keys hs,
+      ∃ dV dW fl, (final cd ls v0 w0 ops).2.spec.get kv.1 = .present kv.2 dV dW fl ∧
+        (final cd ls v0 w0 ops).2.V < dV + slack ls :=
+  PfC19.mrun_deadline cd hcd ls h2 v0 w0 ops hok hc keys hs
+
+/-- The judge used for stacks with several in-memory layers (`jstepM`, the function the oracle runs
+on the implementation's observations) raises nothing on a read of any model run. -/
+theorem judgeM_accepts_every_read (cd : Codec) (hcd : ∀ b, cd.dec (cd.enc b) = some b) (ls : List Layer)
+    (h2 : emptyLrus ls) (v0 w0 : Int) (ops : List (Op × List (List Key)))
+    (hok : ∀ o ∈ ops, OpOk o.1) (coupled : Bool) (hc : coupled = true → ∀ o ∈ ops, Coupled o.1)
+    (keys : List Key) (hs : List (List Key)) (e : Bool) :
+    (jstepM (slack ls) coupled (final cd ls v0 w0 ops).2 (.get keys)
+      (.got ((final cd ls v0 w0 ops).1.read cd keys hs) e)).2 = [] := by
+  simp only [jstepM, List.flatMap_eq_nil_iff]
+  intro kv hkv
+  obtain ⟨hk, dV, dW, fl, hg⟩ := PfC19.mrun_read cd hcd ls h2 v0 w0 ops hok keys hs kv hkv
+  unfold checkReadM
+  rw [hg]
+  cases hcp : coupled with
+  | false => simp [hk]
+  | true =>
+    obtain ⟨dV', dW', fl', hg', hlt⟩ := PfC19.mrun_deadline cd hcd ls h2 v0 w0 ops hok (hc hcp) keys hs kv hkv
+    rw [hg] at hg'
+    simp only [JEnt.present.injEq] at hg'
+    obtain ⟨_, rfl, _, _⟩ := hg'
+    simp [hk, hlt]
+
+/-- three in-memory layers, interleaved with a versioned and a compression layer; `slack` = 5 + 4 + 0. -/
+def exStackM : List Layer := [.lru 1 5 [], .ver 3, .lru 2 4 [], .snap, .lru 1 (-1) []]
+
+example : emptyLrus exStackM ∧ ¬ oneLru exStackM ∧ slack exStackM = 9 ∧ lruCount exStackM = 3 ∧
+    (∀ o ∈ exOps, OpOk o.1) ∧ (∀ o ∈ exOps, Coupled o.1) :=
+  ⟨⟨rfl, rfl, rfl, trivial⟩, by simp [exStackM, oneLru, noLru], by decide, rfl, by simp [exOps, OpOk], by simp [exOps, Coupled]⟩
+
+/-- the multi-layer judge is not trivially satisfied. -/
+example :
+    (jstepM 9 true ⟨[([1], .present [7] 5 5 none)], 0, 0⟩ (.get [[1]]) (.got [([1], [8])] false)).2 = ["read-not-last-stored"] ∧
+    (jstepM 9 true ⟨[([1], .deleted)], 0, 0⟩ (.get [[1]]) (.got [([1], [8])] false)).2 = ["read-after-delete"] ∧
+    (jstepM 9 true ⟨[([1], .present [7] 5 5 none)], 14, 14⟩ (.get [[1]]) (.got [([1], [7])] false)).2 = ["read-after-hard-deadline"] ∧
+    (jstepM 9 true ⟨[([1], .present [7] 5 5 none)], 13, 13⟩ (.get [[1]]) (.got [([1], [7])] false)).2 = [] ∧
+    (jstepM 9 true ⟨[([1], .present [7] 5 5 none)], 3, 3⟩ (.add [1] [8] 3) (.added true)).2 = ["add-accepted-over-live-entry"] := by
+  decide
+
+/-! ### Two interleaved clients with different versions over shared lower layers
+
+Client A goes through `upA ++ .ver a :: low`, client B through `upB ++ .ver b :: low`, `a ≠ b`;
+`upA`, `upB`, `low` are ARBITRARY stacks (in-memory layers of `low` are shared with their contents).
+`run2 cd a b me s j evs` runs any interleaving `evs` of operations of both clients (`false` = A,
+`true` = B) and alongside the map-with-expiry `j` of client `me`, which is fed with `me`'s own
+operations and outcomes and with the clock steps only — nothing the other client does enters it. -/
+
+/-- **Isolation.** After any interleaved run, whatever client `me` reads under a key is the value
+`me` itself stored there last (and did not delete) — byte for byte, only requested keys — whatever the
+other client stored, added, deleted, multi-set or read (and thereby back-filled into shared
+in-memory layers) under the same or any other logical key in between. A client of version `a` never
+reads what a client of version `b ≠ a` stored. Both clocks free. -/
+theorem two_clients_isolated (cd : Codec) (hcd : ∀ x, cd.dec (cd.enc x) = some x) (a b : Nat) (hab : a ≠ b) (me : Bool)
+    (upA upB low : List Layer) (hA : emptyLrus upA) (hB : emptyLrus upB) (hL : emptyLrus low) (v0 w0 : Int)
+    (evs : List (Bool × Op × List (List Key))) (hok : ∀ e ∈ evs, OpOk e.2.1) (keys : List Key) (hs : List (List Key)) :
+    ∀ kv ∈ (getL cd (run2 cd a b me (S2.fresh upA upB low v0 w0) (JSt.fresh v0 w0) evs).1.wall
+        ((run2 cd a b me (S2.fresh upA upB low v0 w0) (JSt.fresh v0 w0) evs).1.path a b me)
+        (run2 cd a b me (S2.fresh upA upB low v0 w0) (JSt.fresh v0 w0) evs).1.be keys hs).2.1,
+      kv.1 ∈ keys ∧ ∃ dV dW fl,
+        (run2 cd a b me (S2.fresh upA upB low v0 w0) (JSt.fresh v0 w0) evs).2.spec.get kv.1 = .present kv.2 dV dW fl :=
+  PfC19.run2_read cd hcd a b hab me upA upB low hA hB hL v0 w0 evs hok keys hs
+
+/-- ... in particular a key `me` deleted (or never stored) is not returned to `me`, even if the other
+client stored the same logical key afterwards. -/
+theorem two_clients_no_read_after_delete (cd : Codec) (hcd : ∀ x, cd.dec (cd.enc x) = some x) (a b : Nat) (hab : a ≠ b)
+    (me : Bool) (upA upB low : List Layer) (hA : emptyLrus upA) (hB : emptyLrus upB) (hL : emptyLrus low) (v0 w0 : Int)
+    (evs : List (Bool × Op × List (List Key))) (hok : ∀ e ∈ evs, OpOk e.2.1) (keys : List Key) (hs : List (List Key))
+    (k : Key)
+    (hd : (run2 cd a b me (S2.fresh upA upB low v0 w0) (JSt.fresh v0 w0) evs).2.spec.get k = .deleted ∨
+          (run2 cd a b me (S2.fresh upA upB low v0 w0) (JSt.fresh v0 w0) evs).2.spec.get k = .never) :
+    ∀ kv ∈ (getL cd (run2 cd a b me (S2.fresh upA upB low v0 w0) (JSt.fresh v0 w0) evs).1.wall
+        ((run2 cd a b me (S2.fresh upA upB low v0 w0) (JSt.fresh v0 w0) evs).1.path a b me)
+        (run2 cd a b me (S2.fresh upA upB low v0 w0) (JSt.fresh v0 w0) evs).1.be keys hs).2.1, kv.1 ≠ k := by
+  intro kv hkv he
+  obtain ⟨_, dV, dW, fl, hg⟩ := PfC19.run2_read cd hcd a b hab me upA upB low hA hB hL v0 w0 evs hok keys hs kv hkv
+  rw [he] at hg
+  rcases hd with hd | hd <;> rw [hd] at hg <;> simp at hg
+
+/-- An operation of the other client (not a clock step) leaves `me`'s map-with-expiry as it is:
+operations of the two clients commute on each other's view. (What is NOT claimed and does not hold
+over a shared in-memory layer: that `me`'s reads return as much as without the other client — the
+other client's entries can push `me`'s copies out of a shared in-memory layer, after which a read
+that the layer would still have served past the backend's TTL comes back empty. Safety is
+unaffected: `two_clients_isolated`.) -/
+theorem other_client_leaves_view (cd : Codec) (a b : Nat) (me c : Bool) (hc : c ≠ me) (s : S2) (j : JSt) (op : Op)
+    (hop : op.isClock = false) (hs : List (List Key)) (rest : List (Bool × Op × List (List Key))) :
+    run2 cd a b me s j ((c, op, hs) :: rest) = run2 cd a b me (s.apply cd a b c op hs).1 j rest := by
+  simp [run2, hc, hop]
+
+/-- the hypotheses are satisfiable: A = LRU over `3@` over a SHARED LRU over compression, B = `12@`
+directly over the shared part; B stores under A's logical key between A's store and A's read. -/
+def exEvs : List (Bool × Op × List (List Key)) :=
+  [(false, .set [97] [1, 2] 3, []), (true, .set [97] [9] 3, []), (true, .get [[97]], []), (false, .get [[97]], [])]
+
+example : (3 : Nat) ≠ 12 ∧ emptyLrus [.lru 1 5 []] ∧ emptyLrus ([] : List Layer) ∧ emptyLrus [.lru 2 4 [], .snap] ∧
+    (∀ e ∈ exEvs, OpOk e.2.1) :=
+  ⟨by decide, ⟨rfl, trivial⟩, trivial, ⟨rfl, trivial⟩, by simp [exEvs, OpOk]⟩
+
+/-! ### Capacity of the in-memory layers -/
+
+/-- After any run through any stack, every in-memory layer holds at most `size` entries, under
+pairwise distinct keys (`capOk`): `lru.Add` evicts from the old end, the scan of `GetMulti` only
+moves or removes entries, the back-fill goes through `lru.Add`. (The recency ORDER is the model's
+list order, compared with the implementation's list after every operation.) -/
+theorem lru_capacity_invariant (cd : Codec) (ls : List Layer) (h2 : emptyLrus ls) (v0 w0 : Int)
+    (ops : List (Op × List (List Key))) : PfC19.capOk (final cd ls v0 w0 ops).1.layers :=
+  PfC19.runTo_cap cd _ ops _ _ (PfC19.capOk_init ls h2)
+
+/-- one `lru.Add`: the new entry is the most recent one, the layer stays within its size, and an
+entry other than the oldest ones survives (here: everything that fits). -/
+theorem lru_add_front_and_bound (sz : Nat) (hsz : 1 ≤ sz) (k : Key) (it : Item) (e : KV) :
+    (lruAdd sz k it e).head? = some (k, it) ∧ (lruAdd sz k it e).length ≤ sz := by
+  constructor
+  · cases sz with
+    | zero => omega
+    | succ n => simp [lruAdd, aPut]
+  · simp only [lruAdd, List.length_take]; omega
+
+example : PfC19.capOk [.lru 2 5 [([1], ⟨[7], 3⟩), ([2], ⟨[8], 3⟩)], .ver 3, .lru 1 0 []] ∧
+    ¬ PfC19.capOk [.lru 1 5 [([1], ⟨[7], 3⟩), ([2], ⟨[8], 3⟩)]] := by
+  simp [PfC19.capOk, PfC19.entsOk]
 
 /-! ### Add -/
 
